@@ -11,7 +11,7 @@ LOG=$D/confirm.log; : > $LOG
 cd $WT || exit 2
 git checkout -q -- . ; git apply $D/patch.diff || { echo "patch does not apply" | tee -a $LOG; exit 2; }
 (setsid -w timeout -k 5 300 env PYTHONPATH=$WT /venv/bin/python $D/demo.py > $D/demo_with.txt 2>&1; echo "demo with change: exit=$?" >> $LOG)
-(setsid -w timeout -k 5 1500 env PYTHONPATH=$WT /venv/bin/python -m pytest -q -p no:cacheprovider --timeout=900 $TESTS > $D/tests_with.txt 2>&1; echo "existing tests with change: exit=$? $(tail -1 $D/tests_with.txt)" >> $LOG)
+[ -n "$TESTS" ] && (setsid -w timeout -k 5 3000 env PYTHONPATH=$WT /venv/bin/python -m pytest -q -p no:cacheprovider --timeout=900 $TESTS > $D/tests_with.txt 2>&1; echo "existing tests with change: exit=$? $(tail -1 $D/tests_with.txt)" >> $LOG)
 git checkout -q -- .
 (setsid -w timeout -k 5 300 env PYTHONPATH=$WT /venv/bin/python $D/demo.py > $D/demo_without.txt 2>&1; echo "demo without change: exit=$?" >> $LOG)
 git apply $D/patch.diff
